@@ -371,17 +371,17 @@ def run_solve(sc):
         return r
     s.Collapse = hook                    # instance attribute: _Solve's self.Collapse(...) goes through the hook
     err = None
-    old = signal.signal(signal.SIGALRM, _alarm)
-    signal.alarm(sc.get('guard', 30))
+    old = signal.signal(signal.SIGVTALRM, _alarm)       # CPU seconds of this process, not wall clock (load-independent)
+    signal.setitimer(signal.ITIMER_VIRTUAL, sc.get('guard', 30))
     try:
         s.Solve(rec, term)
     except Timeout:
-        err = 'no return within %d s' % sc.get('guard', 30)
+        err = 'no return within %d CPU-seconds' % sc.get('guard', 30)
     except Exception as e:
         err = 'raised %r' % (e,)
     finally:
-        signal.alarm(0)
-        signal.signal(signal.SIGALRM, old)
+        signal.setitimer(signal.ITIMER_VIRTUAL, 0)
+        signal.signal(signal.SIGVTALRM, old)
     return err, log, rec.calls, [float(v) for v in s.bestSolution], mt.state(s._termination)
 
 
